@@ -356,7 +356,8 @@ func c14Settable(f reflect.Value) reflect.Value {
 	return reflect.NewAt(f.Type(), unsafe.Pointer(f.UnsafeAddr())).Elem()
 }
 
-// c14Strings visits every non-empty string / []byte leaf of x in a deterministic order (maps skipped).
+// c14Strings visits every non-empty string / []byte leaf of x in a deterministic order (incl. the values of
+// string->string dictionaries; map keys are left alone).
 // FillRandom zeroes fields whose fields-mask bit is off, so a non-empty leaf is one that is on the wire.
 func c14Strings(v reflect.Value, fn func(leaf reflect.Value)) {
 	switch v.Kind() {
@@ -385,6 +386,22 @@ func c14Strings(v reflect.Value, fn func(leaf reflect.Value)) {
 	case reflect.Struct:
 		for i := 0; i < v.NumField(); i++ {
 			c14Strings(c14Settable(v.Field(i)), fn)
+		}
+	case reflect.Map:
+		// dictionaries (string -> string): the values are leaves too (keys keep FillRandom's ASCII)
+		if v.Type().Key().Kind() != reflect.String || v.Type().Elem().Kind() != reflect.String || v.Len() == 0 {
+			return
+		}
+		keys := v.MapKeys()
+		sort.Slice(keys, func(a, b int) bool { return keys[a].String() < keys[b].String() })
+		for _, k := range keys {
+			if v.MapIndex(k).Len() == 0 {
+				continue
+			}
+			leaf := reflect.New(v.Type().Elem()).Elem()
+			leaf.SetString(v.MapIndex(k).String())
+			fn(leaf)
+			v.SetMapIndex(k, leaf)
 		}
 	}
 }
@@ -1105,6 +1122,58 @@ func c14PropObj(t vpT, it *c14Item, c c14Case) (nontrivial bool, classes []strin
 		}
 		if bj := c14Write(t, z2, name); !negz && !bytes.Equal(bj, b1) {
 			t.Fatalf("%s: Marshal/UnmarshalJSON round trip changed the value\njson=%s\nb1=%s\nbj=%s", name, c14Short(string(mj)), c14Hex(b1), c14Hex(bj))
+		}
+	}
+
+	// --- JSON through the []byte variant: the same JSON text must decode to the same value in both
+	// variants (they have separate readers: Json2ReadString / Json2ReadStringBytes), and the []byte
+	// variant must read back what it wrote itself.
+	escaped := bytes.IndexByte(j, '\\') >= 0 // the writer escaped something: quote, backslash, control char, U+2028/9
+	if escaped {
+		cls["json-escaped-char"] = true
+	}
+	if it.NewBytes != nil {
+		if escaped {
+			cls["json-escaped-char-bytes-variant"] = true
+		}
+		zb := it.NewBytes()
+		lex := basictl.JsonLexer{Data: j}
+		if err := zb.ReadJSONGeneral(&basictl.JSONReadContext{}, &lex); err != nil {
+			t.Fatalf("%s: []byte variant cannot read the JSON the string variant wrote: %v\njson=%s", name, err, c14Short(string(j)))
+		}
+		lex.Consumed()
+		if err := lex.Error(); err != nil {
+			t.Fatalf("%s: []byte variant ReadJSON did not consume the text: %v\njson=%s", name, err, c14Short(string(j)))
+		}
+		if bj := c14Write(t, zb, name); !negz && !bytes.Equal(bj, b1) {
+			t.Fatalf("%s: the same JSON text decodes to different values in the string and []byte variants (first diff at TL1 byte %d)\njson=%s\nstring=%s\nbytes =%s", name, c14FirstDiff(b1, bj), c14Short(string(j)), c14Hex(b1), c14Hex(bj))
+		}
+		// the []byte variant's own output, read by both variants
+		xw := it.NewBytes()
+		if _, err := xw.ReadTL1(b1); err != nil {
+			t.Fatalf("%s: []byte variant ReadTL1 failed: %v", name, err)
+		}
+		jb, err := xw.WriteJSONGeneral(&basictl.JSONWriteContext{}, nil)
+		if err != nil || !bytes.Equal(jb, j) {
+			t.Fatalf("%s: []byte variant writes another JSON text (err=%v)\nstring=%s\nbytes =%s", name, err, c14Short(string(j)), c14Short(string(jb)))
+		}
+		mjb, err := xw.MarshalJSON()
+		if err != nil {
+			t.Fatalf("%s: []byte variant MarshalJSON failed: %v", name, err)
+		}
+		zb2 := it.NewBytes()
+		// into a used object: the bytes readers reuse the destination slices
+		c14Fill(zb2, &c14Play{tape: []uint64{3, 0xffffffff, 0x7fffffff, 5, 0x12345678, 9, 0xdeadbeef, 77, 0xffffffff, 0xffffffff, 3, 3, 3, 0xabcdef01, 1 << 20, 7, 7, 7, 0xffffff, 12, 13}})
+		if err := zb2.UnmarshalJSON(mjb); err != nil {
+			t.Fatalf("%s: []byte variant UnmarshalJSON(MarshalJSON(x)) failed: %v\njson=%s", name, err, c14Short(string(mjb)))
+		}
+		if bj := c14Write(t, zb2, name); !negz && !bytes.Equal(bj, b1) {
+			t.Fatalf("%s: []byte variant Marshal/UnmarshalJSON round trip changed the value (first diff at TL1 byte %d)\njson=%s\nb1=%s\nbj=%s", name, c14FirstDiff(b1, bj), c14Short(string(mjb)), c14Hex(b1), c14Hex(bj))
+		}
+		if !negz {
+			if jz := zb2.String(); jz != jx {
+				t.Fatalf("%s: []byte variant: the value decoded from JSON renders differently\nwant=%s\ngot =%s", name, c14Short(jx), c14Short(jz))
+			}
 		}
 	}
 
